@@ -371,7 +371,11 @@ func main() {
 	}
 	// every token spelling, and each with one character appended / dropped
 	for t := token.Token(0); t < 200; t++ {
-		sp := t.String()
+		sp := tf.SafeString(t)
+		if sp == "" {
+			o.Count("token_string_panics_or_empty") // not on tpl.New's path: counted, not a C27 failure
+			continue
+		}
 		for _, s := range []string{sp, sp + "=", sp + sp[len(sp)-1:], sp[:len(sp)-1], " " + sp} {
 			newCase("doc = "+strconv.Quote(s), "spelling")
 		}
